@@ -86,7 +86,9 @@ def ring_sizes(F, M, n):
 
 def l2_alloc(F, R, M, lay):
     allocs = [b for b in F.bodies.values() if b.get('impl_adt') == lay and F.handwritten(b) and b['kind'] == 'AssocFn'
-              and '-> core::result::Result<' in b.get('sig', '') and 'impl_trait' not in b]
+              and '-> core::result::Result<' in b.get('sig', '') and 'impl_trait' not in b
+              # the functions that build a layout value themselves (a dispatcher that merely forwards to them is not one)
+              and any(st['k'] == 'assign' and st['rv']['rv'] == 'agg' and st['rv'].get('adt') == lay for bl in b['blocks'] for st in bl['stmts'])]
     roles = {}
     for b in allocs:
         sg = supergraph(F, b['id'], opaque=lambda t, bb: bb.get('impl_adt') == M.dma_adt, tag='c06')
@@ -310,7 +312,9 @@ def l3_registration(F, R, M, lay, roles):
 def l4_refusal(F, R, M):
     ctors = [b for b in queue_entry_points(F, M) if b.get('sig', '').find('-> core::result::Result<%s<' % M.queue_adt) >= 0]
     for b in ctors:
-        sg = supergraph(F, b['id'], opaque=lambda t, bb: bb['id'] != b['id'] and not bb.get('from_expansion'), tag='c06l4')
+        # private helpers of the queue type are part of the constructor; everything else is an event
+        sg = supergraph(F, b['id'], opaque=lambda t, bb: bb['id'] != b['id'] and not bb.get('from_expansion') and not (
+            bb.get('impl_adt') == M.queue_adt and not bb.get('pub') and 'impl_trait' not in bb), tag='c06l4')
         where = fn_site(F, b['id'])
         paths = PathEnum(sg, loop_unroll=0).run()
         bad = None
